@@ -8,6 +8,8 @@ layout of untouched rows when the key is not first and keyless merges.
 -/
 import WrglModel.Model.Merge
 import WrglModel.Spec.Merge
+import WrglModel.Spec.MergeBase
+import WrglModel.Lemmas.C11Seek
 import WrglModel.Lemmas.C05
 import WrglModel.Lemmas.C05Cols
 import WrglModel.Lemmas.C05CellCols
@@ -145,5 +147,66 @@ example : TableOK 2 [0] [[[1], [2]], [[3], [4]]] := by
   constructor
   · intro r hr; simp at hr; rcases hr with rfl | rfl <;> rfl
   · simp [keyOf]
+
+/-! ### the shared base of a merge of several heads (Spec/MergeBase.lean)
+
+"Merging branches that share a base": for the histories the harness builds (op `merge-cli-pull`: three
+heads merged at once) the driver takes `bestCommonAncestors` of the commit graph for that base. -/
+
+theorem mem_commonAncestors (g : Graph) (x : Nat) (xs : List Nat) (c : Nat) :
+    c ∈ commonAncestors g (x :: xs) ↔ ∀ y ∈ x :: xs, reach g c y = true := by
+  simp only [commonAncestors, List.mem_filter, List.all_eq_true, reach, List.contains_iff_mem, List.mem_cons]
+  constructor
+  · rintro ⟨h1, h2⟩ y (rfl | hy)
+    · exact h1
+    · exact h2 y hy
+  · intro h
+    exact ⟨h x (Or.inl rfl), fun y hy => h y (Or.inr hy)⟩
+
+/-- Every commit the driver takes for the base of a merge of the heads `x :: xs` is an
+    ancestor-or-self of EVERY head (not just of two of them), and no other commit with that property
+    lies below it (is a descendant of it): it is where all the histories meet. And conversely. -/
+theorem C05_merge_base_spec (g : Graph) (x : Nat) (xs : List Nat) (c : Nat) :
+    c ∈ bestCommonAncestors g (x :: xs) ↔
+    ((∀ y ∈ x :: xs, reach g c y = true) ∧
+     (∀ d, (∀ y ∈ x :: xs, reach g d y = true) → d ≠ c → reach g c d = false)) := by
+  constructor
+  · intro h
+    simp only [bestCommonAncestors, List.mem_filter] at h
+    obtain ⟨hc, hn⟩ := h
+    refine ⟨(mem_commonAncestors g x xs c).1 hc, ?_⟩
+    intro d hd hne
+    have hdm := (mem_commonAncestors g x xs d).2 hd
+    cases hr : reach g c d with
+    | false => rfl
+    | true =>
+      exfalso
+      have : (commonAncestors g (x :: xs)).any (fun d => d != c && reach g c d) = true := by
+        apply List.any_eq_true.2
+        exact ⟨d, hdm, by simp [hne, hr]⟩
+      simp [this] at hn
+  · rintro ⟨hc, hbest⟩
+    simp only [bestCommonAncestors, List.mem_filter]
+    refine ⟨(mem_commonAncestors g x xs c).2 hc, ?_⟩
+    cases ha : (commonAncestors g (x :: xs)).any (fun d => d != c && reach g c d) with
+    | false => rfl
+    | true =>
+      exfalso
+      obtain ⟨d, hdm, hp⟩ := List.any_eq_true.1 ha
+      simp only [Bool.and_eq_true, bne_iff_ne, ne_eq] at hp
+      have := hbest d ((mem_commonAncestors g x xs d).1 hdm) hp.1
+      rw [this] at hp
+      exact Bool.noConfusion hp.2
+
+/-- the same through parent links proper (`Reach`), on a well-formed graph that holds the heads -/
+theorem C05_merge_base_reaches_every_head (g : Graph) (hwf : g.wf = true) (x : Nat) (xs : List Nat) (c : Nat)
+    (hin : ∀ y ∈ x :: xs, (g.get? y).isSome = true) (h : c ∈ bestCommonAncestors g (x :: xs)) :
+    ∀ y ∈ x :: xs, Reach g c y :=
+  fun y hy => (reach_iff_Reach g hwf c y (hin y hy)).1 (((C05_merge_base_spec g x xs c).1 h).1 y hy)
+
+/-- non-vacuity: root 0, 1 on it, 2 and 3 on 1, 4 on the root. Heads 4, 2, 3: the base is the root,
+    although 2 and 3 share the more recent commit 1 -/
+example : bestCommonAncestors [⟨0, 0, [], 0⟩, ⟨1, 1, [0], 0⟩, ⟨2, 2, [1], 0⟩, ⟨3, 3, [1], 0⟩, ⟨4, 4, [0], 0⟩] [4, 2, 3] = [0] := by decide
+example : bestCommonAncestors [⟨0, 0, [], 0⟩, ⟨1, 1, [0], 0⟩, ⟨2, 2, [1], 0⟩, ⟨3, 3, [1], 0⟩, ⟨4, 4, [0], 0⟩] [2, 3] = [1] := by decide
 
 end Wrgl
